@@ -1,6 +1,7 @@
 """C18 — named enum rules and regex types behave like their inline forms."""
 import json, re
 import vcommon as vc
+import check_c02 as C2
 
 VALUES = ['"a"', '"b c"', '""', '"1"', "1", "2", "-3", "2.5", "2.50", "true", "false", '"true"', "null", '"null"', '"é"', '"q\\"uote"']
 KINDS = {"s": "string", "i": "integer", "f": "float", "b": "boolean", "n": "null"}
@@ -64,7 +65,7 @@ def rand_pattern(rng):
 
 def sample_strings(rng, pat):
     py = re.compile(pat.replace("$", "\\Z"))
-    pool = ["", "a", "ab", "abc", "aab", "1", "12", "a1", "x", "a.b", "a/b", "a\\b", "abcd", "cd", "zz", "a b", "A", "0-9", "x_x"]
+    pool = ["", "a", "ab", "abc", "aab", "1", "12", "a1", "x", "a.b", "a/b", "a\\b", "abcd", "cd", "zz", "a b", "A", "0-9", "x_x", "é", "xfoo", "foo", "foox", "443", "x443"]
     out = []
     for s in pool + ["".join(rng.choice("abcxz19 ./\\-_") for _ in range(rng.randint(1, 6))) for _ in range(6)]:
         out.append((s, py.search(s) is not None))
@@ -143,7 +144,7 @@ def run(ctx):
                 ctx.report("Check of the enum schema fails: named %s, inline %s; values %s" % (a[0], b[0], vals), "c18c:" + text, {"enum": text, "named": a[0], "inline": b[0]}, case=text)
             continue
         for p, x, y in zip(probes, a[1:], b[1:]):
-            want = p in vals
+            want = any(C2.enum_equal(p, v) for v in vals)      # type-sensitive membership; numbers of one kind are compared by value (2.5 = 2.50; 2 and 2.0 differ)
             if ((x == "ok") != (y == "ok") or (x == "ok") != want) and len(ctx.violations) < 40:
                 ctx.report("document %s against enum %s: named rule %s, inline list %s, membership %s" % (p, vals, x, y, want), "c18m:" + text + p,
                            {"enum": text, "values": vals, "document": p, "named": x, "inline": y, "expected": want}, case=text)
@@ -197,7 +198,10 @@ def run(ctx):
     import enum_cases
     enum_cases.stream(ctx, st, "c", quick, "c18")
     # ---------- regex ----------
-    pats = [rand_pattern(rng) for _ in range(1200 if quick else 6000)] + ["a\\\\", "^C:\\\\", "a\\/b", "[a-c]+\\\\"]
+    # known finding: the example generator ignores the word-boundary assertions \b and \B (its example for /\Bfoo/ is "foo"), so the example of such a type may not
+    # match and Check of a schema using the type then fails on the generated example
+    ctx.classifiers["regex_example_word_boundary"] = lambda case: isinstance(case, str) and re.search(r"\\[bB]", case) is not None
+    pats = [rand_pattern(rng) for _ in range(1200 if quick else 6000)] + ["a\\\\", "^C:\\\\", "a\\/b", "[a-c]+\\\\", "[^\\x00-\\x7F]+", "^[^\\x00-\\x7f]$", "\\Bfoo", "foo\\B", "^\\B\\d{3}$", "a\\bb?", "\\bx\\b"]
     rlines = [json.dumps({"text": "/%s/%s" % (p, rng.choice(["", " trailing text", "\nNEXT /x/"]))}) for p in pats]
     routs = vc.impl_parallel(["regextype"], rlines)
     mlines = [json.loads(l)["text"].encode().hex() for l in rlines]
